@@ -41,10 +41,14 @@ type c18Scenario struct {
 	// gone away does): the connection is closed all the same, and its slot
 	// must be released.
 	CloseErr bool
+	// LsnrCloseErr makes the Close of the underlying listeners report an
+	// error (a socket that is already closed does): the listener is closed
+	// all the same, and its waiters must be released.
+	LsnrCloseErr bool
 }
 
 func (sc c18Scenario) String() string {
-	return fmt.Sprintf("stop=%d resume=%d accepts=%v closes=%d shutdown=%d innererr=%v racer=%v closeerr=%v", sc.Stop, sc.Resume, sc.Accepts, sc.Closes, sc.Shutdown, sc.InnerErr, sc.Racer, sc.CloseErr)
+	return fmt.Sprintf("stop=%d resume=%d accepts=%v closes=%d shutdown=%d innererr=%v racer=%v closeerr=%v", sc.Stop, sc.Resume, sc.Accepts, sc.Closes, sc.Shutdown, sc.InnerErr, sc.Racer, sc.CloseErr) + map[bool]string{true: " lsnrcloseerr=true"}[sc.LsnrCloseErr]
 }
 
 type c18Conn struct {
@@ -109,7 +113,14 @@ func (l *c18Inner) Accept() (net.Conn, error) {
 	return c, nil
 }
 
-func (l *c18Inner) Close() error   { l.closed = true; return nil }
+func (l *c18Inner) Close() error {
+	l.closed = true
+	if l.env.sc.LsnrCloseErr {
+		return errors.New("close tcp 127.0.0.1:53: use of closed network connection")
+	}
+
+	return nil
+}
 func (l *c18Inner) Addr() net.Addr { return &net.TCPAddr{} }
 
 type c18Env struct {
@@ -335,6 +346,7 @@ func c18Scenarios(thorough bool) (out []c18Scenario) {
 				c18Scenario{Stop: stop, Resume: resume, Accepts: [][]int{{0, 0}, {1}}, Closes: 2, Shutdown: -1, InnerErr: true},
 				c18Scenario{Stop: stop, Resume: resume, Accepts: [][]int{{0, 0}, {1}}, Closes: 1, Shutdown: -1, Racer: true},
 				c18Scenario{Stop: stop, Resume: resume, Accepts: [][]int{{0, 0}, {1}}, Closes: 2, Shutdown: -1, CloseErr: true},
+				c18Scenario{Stop: stop, Resume: resume, Accepts: [][]int{{0, 0}, {1, 1}}, Closes: 1, Shutdown: 1, LsnrCloseErr: true},
 			)
 			if thorough {
 				out = append(out,
